@@ -275,12 +275,14 @@ func (u *universe) buildExporter1(v int) []byte {
 }
 
 // buildImporter1 builds a module importing "E".<name> with declared type t and exporting "probe" () -> i64.
-func buildImporter1(name string, t extType) []byte {
+func buildImporter1(name string, t extType) []byte { return buildImporterFrom("E", name, t) }
+
+func buildImporterFrom(from, name string, t extType) []byte {
 	m := &wb.Module{}
 	a := &wb.Asm{}
 	switch t.Kind {
 	case wb.KindFunc:
-		f := m.ImportFunc("E", name, t.Params, t.Results)
+		f := m.ImportFunc(from, name, t.Params, t.Results)
 		for _, p := range t.Params {
 			zero(a, p)
 		}
@@ -290,18 +292,18 @@ func buildImporter1(name string, t extType) []byte {
 		}
 		a.I64Const(0)
 	case wb.KindTable:
-		m.Imports = append(m.Imports, wb.Import{Module: "E", Name: name, Kind: wb.KindTable, Table: wb.Table{Elem: t.Elem, Lim: t.Lim}})
+		m.Imports = append(m.Imports, wb.Import{Module: from, Name: name, Kind: wb.KindTable, Table: wb.Table{Elem: t.Elem, Lim: t.Lim}})
 		// (size<<8) | (size>0 ? is_null(table[0]) : 0xff)
 		a.TableSize(0).Op(0xad).I64Const(8).Op(0x86)
 		a.TableSize(0).If(wb.I64).I32Const(0).TableGet(0).RefIsNull().Op(0xad).Else().I64Const(0xff).End()
 		a.Op(0x84)
 	case wb.KindMemory:
-		m.Imports = append(m.Imports, wb.Import{Module: "E", Name: name, Kind: wb.KindMemory, Mem: t.Lim})
+		m.Imports = append(m.Imports, wb.Import{Module: from, Name: name, Kind: wb.KindMemory, Mem: t.Lim})
 		a.MemorySize().Op(0xad).I64Const(8).Op(0x86)
 		a.MemorySize().If(wb.I64).I32Const(3).Mem(0x31, 0, 0).Else().I64Const(0xff).End()
 		a.Op(0x84)
 	case wb.KindGlobal:
-		m.Imports = append(m.Imports, wb.Import{Module: "E", Name: name, Kind: wb.KindGlobal, GlobalType: t.Val, GlobalMut: t.Mut})
+		m.Imports = append(m.Imports, wb.Import{Module: from, Name: name, Kind: wb.KindGlobal, GlobalType: t.Val, GlobalMut: t.Mut})
 		a.GlobalGet(0)
 		switch t.Val {
 		case wb.I32:
@@ -513,7 +515,12 @@ func (e *p1Env) runShardWith(s p1Shard, engines []string, casesFn func() []p1Cas
 }
 
 func runP1Case(rt wazero.Runtime, E api.Module, last api.Function, c p1Case) (r p1Result) {
-	bin := buildImporter1(c.Name, c.Import)
+	return runImporterCase(rt, last, buildImporter1(c.Name, c.Import), c.Import.Kind == wb.KindFunc)
+}
+
+// runImporterCase compiles and instantiates one importer; if accepted it uses the import through `probe`
+// (for function imports the exporter's marker global is read afterwards through `last`).
+func runImporterCase(rt wazero.Runtime, last api.Function, bin []byte, isFunc bool) (r p1Result) {
 	cm, err := rt.CompileModule(bg, bin)
 	if err != nil {
 		// every importer is valid by construction: a compile error is reported as a rejection with a marker
@@ -531,7 +538,7 @@ func runP1Case(rt wazero.Runtime, E api.Module, last api.Function, c p1Case) (r 
 		r.Probe = "probe-error: " + canonErr(err)
 		return
 	}
-	if c.Import.Kind == wb.KindFunc {
+	if isFunc {
 		l, err := last.Call(bg)
 		if err != nil {
 			r.Probe = "last-error: " + canonErr(err)
